@@ -178,3 +178,125 @@ M('C15', 'c15-noise-not-ignored', 'openhtf/plugs/usb/adb_protocol.py',
   "    msg = adb_transport.read_until(('AUTH', 'CNXN'), timeout)\n    if msg.command == 'CNXN':\n      return cls(adb_transport, msg.arg1, msg.data)\n\n    # We got an AUTH response",
   "    msg = adb_transport.read_message(timeout)\n    if msg.command == 'CNXN':\n      return cls(adb_transport, msg.arg1, msg.data)\n\n    # We got an AUTH response",
   'unrelated packets before CNXN are treated as AUTH')
+
+# ---------------------------------------------------------------- C01
+M('C01', 'c01-drop-all-skip-rule', 'openhtf/core/test_state.py',
+  "    elif all(\n        phase.outcome == test_record.PhaseOutcome.SKIP for phase in phases\n    ):",
+  "    elif False:",
+  'all-phases-skipped no longer gives ERROR')
+M('C01', 'c01-ignore-diagnoses', 'openhtf/core/test_state.py',
+  "    elif any(d.is_failure for d in self.test_record.diagnoses):\n      self._finalize(test_record.Outcome.FAIL)",
+  "    elif False:\n      self._finalize(test_record.Outcome.FAIL)",
+  'failure diagnoses no longer fail the test')
+M('C01', 'c01-last-terminal-wins', 'openhtf/core/test_executor.py',
+  "    if outcome.is_terminal:\n      if not self._last_outcome:\n        self._last_outcome = outcome\n        self._last_execution_unit = phase.name",
+  "    if outcome.is_terminal:\n      if True:\n        self._last_outcome = outcome\n        self._last_execution_unit = phase.name",
+  'a later terminal phase (in teardown) overrides the first terminal event')
+M('C01', 'c01-internal-error-forgotten', 'openhtf/core/test_executor.py',
+  "      self._internal_error = phase_executor.ExceptionInfo(*sys.exc_info())\n",
+  "",
+  'executor failure is finalized from the records so far')
+M('C01', 'c01-subtest-fail-ignored', 'openhtf/core/test_state.py',
+  "    elif any(\n        s.outcome == test_record.SubtestOutcome.FAIL\n        for s in self.test_record.subtests\n    ):\n      self._finalize(test_record.Outcome.FAIL)",
+  "    elif False:\n      self._finalize(test_record.Outcome.FAIL)",
+  'a failed subtest no longer fails the test')
+M('C01', 'c01-conf-sof-ignored', 'openhtf/core/test_executor.py',
+  "        self.running_test_state.test_options.stop_on_first_failure\n        or CONF.stop_on_first_failure",
+  "        self.running_test_state.test_options.stop_on_first_failure",
+  'CONF.stop_on_first_failure is ignored')
+M('C01', 'c01-failure-exception-exact-only', 'openhtf/core/test_state.py',
+  "      if isinstance(outcome.phase_result.exc_val, failure_exception):",
+  "      if type(outcome.phase_result.exc_val) is failure_exception:",
+  'failure_exceptions no longer matches subclasses')
+M('C01', 'c01-timeout-as-error', 'openhtf/core/test_state.py',
+  "      self._finalize(test_record.Outcome.TIMEOUT)",
+  "      self._finalize(test_record.Outcome.ERROR)",
+  'phase timeout gives ERROR instead of TIMEOUT')
+M('C01', 'c01-unset-allowed-always', 'openhtf/core/test_state.py',
+  "    if CONF.allow_unset_measurements:\n      allowed_outcomes.add(measurements.Outcome.UNSET)",
+  "    if True:\n      allowed_outcomes.add(measurements.Outcome.UNSET)",
+  'unset measurements never fail a phase')
+M('C01', 'c01-test-diag-error-swallowed', 'openhtf/core/test_executor.py',
+  "        # Record the equivalent failure outcome and exit early.\n        self._last_outcome = phase_executor.PhaseExecutionOutcome(\n            phase_executor.ExceptionInfo(*sys.exc_info()))\n        self._last_execution_unit = str(diagnoser.name)",
+  "        pass",
+  'a raising test diagnoser no longer gives ERROR')
+
+# ---------------------------------------------------------------- C02
+M('C02', 'c02-skip-teardown-after-terminal-main', 'openhtf/core/test_executor.py',
+  "    else:\n      main_ret = _ExecutorReturn.CONTINUE\n    if group.teardown:",
+  "    else:\n      main_ret = _ExecutorReturn.CONTINUE\n    if group.teardown and main_ret == _ExecutorReturn.CONTINUE:",
+  'group teardown skipped when main was terminal')
+M('C02', 'c02-fail-subtest-escapes', 'openhtf/core/test_executor.py',
+  "      subtest_rec.outcome = test_record.SubtestOutcome.FAIL\n    return _ExecutorReturn.CONTINUE\n\n  def _execute_checkpoint",
+  "      pass\n    return _ExecutorReturn.CONTINUE\n\n  def _execute_checkpoint",
+  'FAIL_SUBTEST from a phase no longer fails the subtest')
+M('C02', 'c02-any-all-swapped', 'openhtf/core/phase_branches.py',
+  "    ConditionOn.ALL: all,\n    ConditionOn.ANY: any,",
+  "    ConditionOn.ALL: any,\n    ConditionOn.ANY: all,",
+  'ALL and ANY conditions swapped')
+M('C02', 'c02-branch-recorded-twice', 'openhtf/core/test_executor.py',
+  "    self.running_test_state.test_record.add_branch_record(branch_rec)\n    return ret",
+  "    self.running_test_state.test_record.add_branch_record(branch_rec)\n    if branch_taken: self.running_test_state.test_record.add_branch_record(branch_rec)\n    return ret",
+  'a taken branch is recorded twice')
+M('C02', 'c02-sequence-continues-after-terminal', 'openhtf/core/test_executor.py',
+  "      exe_ret = self._execute_node(node, subtest_rec, False)\n      if exe_ret != _ExecutorReturn.CONTINUE:\n        return exe_ret\n    return _ExecutorReturn.CONTINUE",
+  "      exe_ret = self._execute_node(node, subtest_rec, False)\n      if exe_ret != _ExecutorReturn.CONTINUE and not isinstance(node, phase_branches.Checkpoint):\n        return exe_ret\n    return _ExecutorReturn.CONTINUE",
+  'a sequence does not stop at a terminal checkpoint')
+M('C02', 'c02-nested-subtest-not-inherit', 'openhtf/core/test_executor.py',
+  "      if outer_subtest_rec and outer_subtest_rec.is_fail:\n        subtest_rec.outcome = test_record.SubtestOutcome.FAIL\n",
+  "",
+  'a subtest nested in a failed subtest runs its phases')
+M('C02', 'c02-group-entered-after-subtest-fail-teardown-runs', 'openhtf/core/test_executor.py',
+  "    skip_teardown = (not in_teardown and subtest_rec is not None and\n                     subtest_rec.is_fail)\n    if group.setup:",
+  "    skip_teardown = False\n    if group.setup:",
+  'teardown of a group entered after the subtest failed is run instead of skipped')
+M('C02', 'c02-checkpoint-last-uses-any', 'openhtf/core/phase_branches.py',
+  "      return self._phase_failed(phase_records[-1])",
+  "      return any(self._phase_failed(p) for p in phase_records[-2:])",
+  'LAST checkpoint also looks at the phase before the last')
+M('C02', 'c02-subtest-checkpoint-global', 'openhtf/core/phase_branches.py',
+  "        if (phase_rec.subtest_name == subtest_rec.name and\n            self._phase_failed(phase_rec)):",
+  "        if (self._phase_failed(phase_rec)):",
+  'SUBTEST checkpoint looks at phases outside the subtest')
+M('C02', 'c02-teardown-stops-at-terminal', 'openhtf/core/test_executor.py',
+  "        ret = _more_critical(ret, self._execute_node(node, subtest_rec, True))\n",
+  "        ret = _more_critical(ret, self._execute_node(node, subtest_rec, True))\n        if ret == _ExecutorReturn.TERMINAL: break\n",
+  'teardown sequence stops at its first terminal node')
+
+# ---------------------------------------------------------------- C05
+M('C05', 'c05-limit-off-by-one', 'openhtf/core/phase_executor.py',
+  "      is_last_repeat = repeat_count >= repeat_limit",
+  "      is_last_repeat = repeat_count > repeat_limit",
+  'one invocation more than repeat_limit')
+M('C05', 'c05-fail-subtest-outside-ok', 'openhtf/core/phase_executor.py',
+  "    if (phase_return is phase_descriptor.PhaseResult.FAIL_SUBTEST and\n        not self._subtest_rec):\n      raise InvalidPhaseResultError(\n          'Phase returned FAIL_SUBTEST but a subtest is not running.')",
+  "    if (phase_return is phase_descriptor.PhaseResult.FAIL_SUBTEST and\n        not self._subtest_rec):\n      phase_return = phase_descriptor.PhaseResult.FAIL_AND_CONTINUE",
+  'FAIL_SUBTEST outside a subtest treated as FAIL_AND_CONTINUE')
+M('C05', 'c05-diagnosers-stop-after-raise', 'openhtf/core/test_state.py',
+  "    for diagnoser in self.diagnosers:\n      self._execute_phase_diagnoser(diagnoser)",
+  "    for diagnoser in self.diagnosers:\n      self._execute_phase_diagnoser(diagnoser)\n      if self.phase_record.result.raised_exception: break",
+  'later diagnosers skipped after one raised')
+M('C05', 'c05-run-if-record-written', 'openhtf/core/phase_executor.py',
+  "        return PhaseExecutionOutcome(phase_descriptor.PhaseResult.SKIP), None\n\n\n    override_result = None",
+  "        self.skip_phase(phase_desc, subtest_rec)\n        return PhaseExecutionOutcome(phase_descriptor.PhaseResult.SKIP), None\n\n\n    override_result = None",
+  'a false run_if writes a SKIP record')
+M('C05', 'c05-repeat-on-any-fail', 'openhtf/core/phase_executor.py',
+  "    elif phase_execution_outcome.is_repeat:\n      return True",
+  "    elif phase_execution_outcome.is_repeat or phase_execution_outcome.is_fail_and_continue:\n      return True",
+  'FAIL_AND_CONTINUE re-invokes the phase')
+M('C05', 'c05-stop-on-mf-no-stop', 'openhtf/core/test_state.py',
+  "      if self.options.stop_on_measurement_fail:",
+  "      if False:",
+  'stop_on_measurement_fail ignored')
+M('C05', 'c05-marginal-fails', 'openhtf/core/test_state.py',
+  "    return all(meas.outcome in allowed_outcomes\n               for meas in self.phase_record.measurements.values())",
+  "    return all(meas.outcome in allowed_outcomes and not meas.marginal\n               for meas in self.phase_record.measurements.values())",
+  'a marginal measurement fails the phase')
+M('C05', 'c05-diag-on-skip', 'openhtf/core/test_state.py',
+  "    if result.is_repeat or result.is_skip:\n      return\n    for diagnoser in self.diagnosers:",
+  "    if result.is_repeat:\n      return\n    for diagnoser in self.diagnosers:",
+  'diagnosers run for SKIP invocations')
+M('C05', 'c05-repeat-limit-stop-is-skip', 'openhtf/core/test_state.py',
+  "    if result is None or result.is_terminal or self.hit_repeat_limit:",
+  "    if result is None or result.is_terminal:",
+  'exceeding the repeat limit recorded as SKIP instead of ERROR')
